@@ -13,7 +13,8 @@ Definition anchors_statement : Prop :=
   /\ anchor_special_runes = [r_hash; r_quote; r_dot; r_backslash; r_lf; r_cr; r_space; r_tab; r_exp_lower; r_exp_upper; r_sub; r_add]
   /\ anchor_identkeywords = map (fun p => (fst p, identkw_name (snd p))) identkw_table
   /\ anchor_limit_def_keywords = map identkw_name limit_def_keywords
-  /\ anchor_limit_reset_guarded = true.
+  /\ anchor_limit_reset_guarded = true
+  /\ anchor_limit_shorthand_period = true.
 Lemma anchors_ok : anchors_statement.
 Proof. unfold anchors_statement. repeat split; reflexivity. Qed.
 
@@ -22,13 +23,13 @@ Definition witness_query_var : bytes :=
   [113;117;101;114;121;32;81;40;36;113;117;101;114;121;58;32;73;110;116;41;32;123;32;97;40;120;58;32;36;113;117;101;114;121;41;32;
    98;32;99;32;100;32;101;32;102;32;103;32;104;32;125].
 
-Definition accepted (fixed : bool) (L F : Z) (b : bytes) : bool :=
-  match tokenize_limits fixed L F b with Some (LOk, _, _) => true | _ => false end.
+Definition accepted (fx cm : bool) (L F : Z) (b : bytes) : bool :=
+  match tokenize_limits fx cm L F b with Some (LOk, _, _) => true | _ => false end.
 
 (* historical accounting: 8 real fields, MaxFields = 3, accepted (TotalFields = 2) *)
 Lemma limits_fields_refuted_proof :
   exists b d, parse_bytes b = Ok d [] /\ exceeds 0 3 d /\ doc_fields d = 8%Z /\
-              tokenize_limits false 0 3 b = Some (LOk, 1%Z, 2%Z).
+              tokenize_limits false false 0 3 b = Some (LOk, 1%Z, 2%Z).
 Proof.
   exists witness_query_var.
   eexists. split; [vm_compute; reflexivity|]. split; [right; vm_compute; split; reflexivity|].
@@ -36,13 +37,28 @@ Proof.
 Qed.
 
 (* the repaired accounting rejects the same document *)
-Example fixed_rejects_witness : tokenize_limits true 0 3 witness_query_var = Some (LFields, 2%Z, 4%Z).
+Example fixed_rejects_witness : tokenize_limits true true 0 3 witness_query_var = Some (LFields, 2%Z, 4%Z).
 Proof. vm_compute. reflexivity. Qed.
 
 (* { a { b } } -- depth 2, 2 fields: hypotheses of limits_sound are satisfiable, and it is rejected *)
 Definition ex_nested : bytes := [123;32;97;32;123;32;98;32;125;32;125].
-Example ex_limits_hyp : exists d, parse_bytes ex_nested = Ok d [] /\ exceeds 1 0 d /\ accepted true 1 0 ex_nested = false.
+Example ex_limits_hyp : exists d, parse_bytes ex_nested = Ok d [] /\ exceeds 1 0 d /\ accepted true true 1 0 ex_nested = false.
 Proof. eexists. split; [vm_compute; reflexivity|]. split; [left; vm_compute; split; reflexivity|vm_compute; reflexivity]. Qed.
+
+(* fragment F on T {a{b}} {x{...F}} : cumulative depth 4, the operation with F spread has depth 3;
+   before the second repair it was accepted with MaxDepth = 2 (TotalDepth = 2) *)
+Definition witness_shorthand_after_fragment : bytes :=
+  [102;114;97;103;109;101;110;116;32;70;32;111;110;32;84;32;123;97;123;98;125;125;32;123;120;123;46;46;46;70;125;125].
+Lemma limits_cumulative_depth_refuted_proof :
+  exists b d, parse_bytes b = Ok d [] /\ depth_sum d = 4%Z /\ max_depth_inlined d d = 3%Z /\
+              tokenize_limits true false 2 0 b = Some (LOk, 2%Z, 3%Z).
+Proof.
+  exists witness_shorthand_after_fragment. eexists. split; [vm_compute; reflexivity|].
+  split; [vm_compute; reflexivity|]. split; vm_compute; reflexivity.
+Qed.
+Example current_rejects_shorthand_witness :
+  tokenize_limits true true 2 0 witness_shorthand_after_fragment = Some (LDepth, 3%Z, 2%Z).
+Proof. vm_compute. reflexivity. Qed.
 
 (* tokens of  {a(x:"""s""" y:-1.5e3)...F}  : every token kind family, ranges in the input *)
 Definition ex_tokens : bytes :=
